@@ -506,6 +506,49 @@ func declaredSymbol(cmd string) string {
 // buildQuery renders the SMT-LIB text that decides obligation ob. Only the cone of influence of the goal is
 // emitted: assertions that (transitively) share an uninterpreted symbol with the goal. Dropping assumptions is
 // sound for unsat answers; for sat answers the dropped part shares no symbol with the kept part.
+// preludeRelevant decides whether a prelude section is worth keeping in a focused slice.
+func preludeRelevant(s *querySection, rel map[string]bool) bool {
+	text := s.text
+	if !strings.Contains(text, ":pattern") {
+		// ground fact: relevant when it mentions a relevant non-theory symbol (a literal)
+		for sym := range s.syms {
+			if rel[sym] && !strings.HasPrefix(sym, "str.") {
+				return true
+			}
+		}
+		return false
+	}
+	rest := text
+	for {
+		k := strings.Index(rest, ":pattern (")
+		if k < 0 {
+			return false
+		}
+		rest = rest[k+len(":pattern "):]
+		end := matchParen(rest, 0)
+		if end < 0 {
+			return false
+		}
+		group := rest[:end+1]
+		syms := map[string]bool{}
+		symbolsOf(group, syms)
+		ok := false
+		all := true
+		for sym := range syms {
+			if strings.HasPrefix(sym, "str.") && sym != "str.empty" {
+				ok = true
+				if !rel[sym] {
+					all = false
+				}
+			}
+		}
+		if ok && all {
+			return true
+		}
+		rest = rest[end+1:]
+	}
+}
+
 // definedSymbol: for "(assert (= sym rhs))" and "(assert (=> c (= sym rhs)))" the symbol being defined.
 func definedSymbol(text string) string {
 	t := strings.TrimPrefix(text, "(assert ")
@@ -585,6 +628,7 @@ func (l *Log) buildQuery(ob *Obligation, extraPrelude string, focused bool) stri
 	rel := map[string]bool{}
 	symbolsOf(goal, rel)
 	included := make([]bool, len(secs))
+	extraDecl := map[string]bool{}
 	if focused {
 		// focused slice: follow definitions ("(= sym rhs)", "(=> c (= sym rhs))") of the symbols the goal mentions,
 		// then add every other fact all of whose symbols are already relevant. Sound for unsat answers only.
@@ -616,11 +660,15 @@ func (l *Log) buildQuery(ob *Obligation, extraPrelude string, focused bool) stri
 					any = true
 				}
 			}
-			// prelude axioms (string theory, literal facts) are kept as soon as they talk about a relevant symbol
+			// prelude: a quantified axiom is kept when all function symbols of one of its patterns occur in the slice
+			// (an axiom that cannot be triggered only costs time); a ground literal fact when its literal is relevant
+			if i < nPrelude && !all {
+				any = preludeRelevant(s, rel)
+			}
 			if all || (i < nPrelude && any) {
 				included[i] = true
 				for sym := range s.syms {
-					rel[sym] = true // so that the functions they mention get declared
+					extraDecl[sym] = true // the functions they mention must be declared, but do not widen the slice
 				}
 			}
 		}
@@ -661,7 +709,7 @@ func (l *Log) buildQuery(ob *Obligation, extraPrelude string, focused bool) stri
 	sb.WriteString(prelude)
 	for i, s := range secs {
 		if s.decl != "" {
-			if rel[s.decl] {
+			if rel[s.decl] || extraDecl[s.decl] {
 				sb.WriteString(s.text)
 				sb.WriteByte('\n')
 			}
